@@ -1,6 +1,6 @@
 Require Import ExtrOcamlBasic.
 Require Import GV.Model.Sess_io.
 Definition vp_run := sess_run.
-Definition vp_check := alive_check.
+Definition vp_check := c05_check.
 Definition vp_nontriv := c05_nontriv.
 Extraction "model.ml" vp_run vp_check vp_nontriv.
